@@ -155,8 +155,8 @@ class Url:
                 COLON.join(last_token[:-1])
         except ValueError:
             # If unable to convert last part into port,
-            # treat entire data as host
-            host, port = raw, None
+            # treat entire data (sans userinfo) as host
+            host, port = split_at[-1], None
         # patch up invalid ipv6 scenario
         rhost = host.decode('utf-8')
         if COLON.decode('utf-8') in rhost and \
